@@ -22,6 +22,7 @@ def run(project, rep):
     rep.run(S.m2_update_args, schema, rep)
     rep.run(U.u_rules, schema, rep)
     rep.run(U.u_r7_index_deletion, schema, rep)
+    rep.run(U.u_r8_nullable_fields, schema, rep)
     from .. import rules_parser as P
     rep.rule("U-R6", "vendor-prefixed aggregates reach the model layer as sub-trees of their own (so that groom() can drop them whole): the tokenizer's dispatcher starts / ends an element for every tag it matches (P-R6)")
     rep.run(P.p_r6_every_match_dispatched, project, rep)
